@@ -212,7 +212,15 @@ def _mimic_async[**Args, Result](
         except AttributeError:
             pass
     try:
-        within.__dict__.update(function.__dict__)
+        # do not replace attributes already defined by within - when it is a wrapper object
+        # its own state (including the function it wraps) must not be overridden
+        within.__dict__.update(
+            {
+                key: value
+                for key, value in function.__dict__.items()
+                if key not in within.__dict__
+            }
+        )
 
     except AttributeError:
         pass
